@@ -78,7 +78,9 @@ str_net_to_ss(const char *buf, size_t buf_size, sockaddr_storage_p addr,
 	ptm = mem_rchr(buf, buf_size, '/'); /* net-preflen delimiter. */
 	if (NULL != ptm) {
 		ptm ++;
-		preflen = str2u16(ptm, (size_t)(buf_size - (size_t)(ptm - buf)));
+		if (0 != str2u16_chk(ptm, (size_t)(buf_size - (size_t)(ptm - buf)),
+		    128, &preflen))
+			return (EINVAL); /* Not a prefix length. */
 		ptm --;
 	} else {
 		ptm = (const char*)(buf + buf_size);
@@ -94,6 +96,8 @@ str_net_to_ss(const char *buf, size_t buf_size, sockaddr_storage_p addr,
 		if (0xffff == preflen) {
 			preflen = 32;
 		}
+		if (32 < preflen)
+			return (EINVAL);
 		break;
 	case AF_INET6:
 		if (0xffff == preflen) {
